@@ -540,7 +540,8 @@ func timeToInt64(ts *time.Time) int64 {
 
 func int64ToTime(ts int64) *time.Time {
 	if ts > 0 {
-		res := time.Unix(ts/1000, ts%1000).UTC()
+		// ts is in milliseconds, the second argument of time.Unix is nanoseconds.
+		res := time.Unix(ts/1000, (ts%1000)*int64(time.Millisecond)).UTC()
 		return &res
 	}
 	return nil
